@@ -70,6 +70,10 @@ func drawC19(t *rapid.T) C19Case {
 	epi := s.Epilogue
 	cs := C19Case{Epilogue: epi}
 	cs.Old = []byte(rapid.StringN(1, 200, 400).Draw(t, "old"))
+	if rapid.IntRange(0, 3).Draw(t, "longold") == 0 {
+		// an old file longer than any output: a writer that does not truncate leaves its tail
+		cs.Old = []byte(strings.Repeat(string(cs.Old)+"\n// old contents\n", 1+60000/(len(cs.Old)+16)))
+	}
 	render := func() string { return s.Render(spec.RenderOpts{}) }
 	insertAt := func(text, what string) string {
 		// at a random line start inside the declarations or rules (before the epilogue)
